@@ -963,6 +963,11 @@ def gen_case(rng):
     alias = True if entry == "dom" else rng.chance(1, 2)
     if entry == "dom":
         o = strip_ctr(o)
+        if rng.chance(1, 2):
+            # the caller's array meets an array of the function's own, under the same (shared) contract
+            # but a label of the other polarity: each element must keep the label of its own operand
+            l = ("larr", [n(rng.range(3, 5)) for _ in range(rng.range(1, 2))], T_ARR)
+            o = ("comp", (rng.choice(["concatl", "concatr"]), l), o)
     return {"k": k, "T": T, "o": o, "pos": pos, "special": special, "entry": entry, "alias": alias}
 
 
